@@ -161,7 +161,7 @@ func runSamVariants(c *Case, agg bool) result {
 	}
 	return safeRun(30*time.Second, func() (string, error) {
 		var out bytes.Buffer
-		err := sam.Variants(strings.NewReader(txt), strings.NewReader(refTxt), c.Get("reffromfile") == "1", strings.NewReader(c.Get("anntext")),
+		err := sam.Variants(textReader(c.ID, txt), strings.NewReader(refTxt), c.Get("reffromfile") == "1", strings.NewReader(c.Get("anntext")),
 			c.Get("annfmt"), &out, atoi(c.Get("start")), atoi(c.Get("end")), agg, thr, c.Get("append") == "1", atoi(c.Get("threads")))
 		return out.String(), err
 	})
